@@ -90,6 +90,10 @@ def factor_pairing(ctx, obs, rule='FACTOR'):
 def run(ctx, obs):
     from .c10 import keep_index
     keep_index(ctx, obs)
+    # the set generators select by descriptor VALUE (subset / subsample ...): the selectors find the positions from the values
+    from ..rules.containers import selection_consults_descriptor
+    for _m in SELECTORS:
+        selection_consults_descriptor(ctx, obs, 'rdm.rdms.RDMs.' + _m)
     loo_boundary(ctx, obs, 'inference.crossvalsets.sets_leave_one_out_rdm')
     for _q in ('sets_k_fold', 'sets_k_fold_rdm', 'sets_k_fold_pattern'):
         kfold_partition(ctx, obs, 'inference.crossvalsets.' + _q)
